@@ -1318,6 +1318,10 @@ MANIFEST = {
             "MyGrad's actual results on every run. Values are validated by translation validation only: the NumPy kernels are "
             "called on both sides and compared bitwise; their bits are trusted.",
     "note": "Trusted: Lean kernel (axioms propext, Quot.sound), NumPy kernels, the harness' operand builders and comparison. "
-            "The value/shape clauses for non-ufunc functions are differential (seeded), not proved. Known F2 family is listed in "
-            "known_findings/C03.json.",
+            "The value/shape clauses for non-ufunc functions are differential (seeded), not proved. Open findings on the "
+            "unchanged tree (known_findings/C03.json): the F2 family (Python scalars cast to 0-d int64/float64 arrays; 5 "
+            "signatures, attributed by an intervention that hands NumPy the same cast), Tensor.__pow__ special-casing of "
+            "exponents 1 and 2, where() with a Tensor condition (RecursionError), linalg.norm(ord=+-inf) inside no_autodiff "
+            "(AttributeError), clip(..., out=ndarray) with both bounds (read-only error). Calls NumPy itself rejects are outside "
+            "the quantifier and only counted.",
 }
